@@ -1,10 +1,143 @@
-(* C05 - Up-to-date soundness: never skip a task whose last attempt did not succeed.
-   Statements only; proofs are in Fp/Proofs*.v and Fp/Refute.v. *)
-From Coq Require Import List String NArith Bool.
-Import ListNotations.
-From TV Require Import Fp.Model Fp.Refute Extracted.Facts Run.FpCases.
+(* C05 - Change detection and idempotence of fingerprinted tasks.
+   Statements only; proofs are in Fp/ProofsBase.v, Fp/ProofsC05.v (and Fp/Refute.v).
 
-(* the shapes of the code the model hard-wires (dry wiring, call sites, rollback on a failing command ...) *)
+   mon_C05 (Fp/Model.v) is the monitor cases.v evaluates on the real binary: once a task's most
+   recent attempt succeeded, the next normal run is skipped iff the fingerprint of its sources
+   (names + contents for checksum, names + mtimes for timestamp) is unchanged, every generates
+   pattern matches a file and the status commands succeed; --force never skips. *)
+From Coq Require Import List String NArith Bool Sorting.Sorted.
+Import ListNotations.
+From TV Require Import Fp.Model Fp.ProofsBase Fp.ProofsSafe Fp.ProofsC04 Fp.ProofsC05 Fp.ProofsDetect Fp.Refute Fp.Examples Extracted.Facts Run.FpCases.
+
 Theorem C05_shape_obligation : fp_shape_ok = true.
 Proof. vm_compute. reflexivity. Qed.
 Print Assumptions C05_shape_obligation.
+
+(* Globs: the last pattern that matches a file decides (exclude entries act in order); result sorted, no duplicates *)
+Theorem C05_Globs_spec :
+  forall (matchb : string -> path -> bool) (f : fsmap) (pats : list glob) (p : path),
+    In p (globs matchb f pats) <-> In p (map fst f) /\ decide matchb pats p = Some true.
+Proof. exact globs_spec. Qed.
+Print Assumptions C05_Globs_spec.
+
+Theorem C05_Globs_sorted :
+  forall (matchb : string -> path -> bool) (f : fsmap) (pats : list glob),
+    Sorted le_str (globs matchb f pats) /\ NoDup (globs matchb f pats).
+Proof. exact (fun m f pats => conj (globs_sorted m f pats) (globs_nodup m f pats)). Qed.
+Print Assumptions C05_Globs_sorted.
+
+Theorem C05_exclude_order :
+  forall (matchb : string -> path -> bool) (f : fsmap) (pats : list glob) (neg : bool) (pat : string) (p : path),
+    In p (map fst f) -> matchb pat p = true ->
+    (In p (globs matchb f (pats ++ [(neg, pat)])) <-> neg = false).
+Proof. exact globs_last_wins. Qed.
+Print Assumptions C05_exclude_order.
+
+(* Full statement (idempotence and detection in one monitor), for the repaired protocol, over
+   every history, every outcome, both methods, with and without status and generates. *)
+Theorem C05_idempotent_and_detects :
+  forall (matchb : string -> path -> bool) (H : string -> string) (Hx : fpr -> string) (v : variant),
+    v_safe v = true -> v_fp_exact v = true -> v_ts_exact v = true -> v_listjson_dry v = true -> v_force_records v = true ->
+    (forall a b, Hx a = Hx b -> a = b) ->
+    forall (p : project) (s : state) (h : list event),
+      wf_proj p -> empty_store s ->
+      mon_C05 matchb p (snap_of s) (observe matchb H Hx v p s h) = true.
+Proof. exact c05_holds. Qed.
+Print Assumptions C05_idempotent_and_detects.
+
+(* the code as it is *)
+Theorem C05_detects_refuted :                 (* 7.8: rename across directories *)
+  v_fp_exact current = false ->
+  exists p h, mon_C05 gmatch p (snap_of w_init) (observe gmatch idH hx1 current p w_init h) = false.
+Proof. exact (fun a => ex_intro _ _ (ex_intro _ _ (proj1 (rename_collision_refuted current a)))). Qed.
+Print Assumptions C05_detects_refuted.
+
+Theorem C05_stream_not_injective :            (* 7.8: bytes moved between a content and the next name *)
+  exists a b : fpr, a <> b /\ stream a = stream b.
+Proof. exact stream_not_injective. Qed.
+Print Assumptions C05_stream_not_injective.
+
+Theorem C05_generates_timestamp_refuted :     (* 7.9 *)
+  v_ts_gen_exist current = false -> v_ts_exact current = false ->
+  exists p h, mon_C05 gmatch p (snap_of w_init) (observe gmatch idH hx1 current p w_init h) = false.
+Proof. exact (fun a b => ex_intro _ _ (ex_intro _ _ (proj1 (ts_generates_refuted current a b)))). Qed.
+Print Assumptions C05_generates_timestamp_refuted.
+
+Theorem C05_timestamp_removal_refuted :       (* nothing gets a newer mtime: removal, rename, back-dating *)
+  v_ts_exact current = false ->
+  exists p h, mon_C05 gmatch p (snap_of w_init) (observe gmatch idH hx1 current p w_init h) = false.
+Proof. exact (fun a => ex_intro _ _ (ex_intro _ _ (ts_removal_refuted current a))). Qed.
+Print Assumptions C05_timestamp_removal_refuted.
+
+Theorem C05_force_not_recorded_refuted :      (* a successful --force run is followed by another full run *)
+  v_force_records current = false ->
+  exists p h, mon_C05 gmatch p (snap_of w_init) (observe gmatch idH hx1 current p w_init h) = false.
+Proof. exact (fun a => ex_intro _ _ (ex_intro _ _ (force_not_recorded_refuted current Checksum a method_cs_ne))). Qed.
+Print Assumptions C05_force_not_recorded_refuted.
+
+(* ---- what the current checkers do detect / ignore (for every variant that still hashes the stream) ---- *)
+
+(* any edit of one matched file, any addition and any removal of a matched file changes the
+   basename++content stream; with an injective hash the checksum checker then answers "not up to date" *)
+Theorem C05_detects_partial :
+  forall (matchb : string -> path -> bool) (f f' : fsmap) (pats : list glob) (p : path),
+    (same_paths f f' /\ In p (globs matchb f pats) /\ content_of f' p <> content_of f p        (* edit *)
+     \/ ~ In p (map fst f) /\ (forall x, In x (map fst f') <-> x = p \/ In x (map fst f))    (* addition *)
+        /\ decide matchb pats p = Some true /\ basename p <> ""%string
+     \/ ~ In p (map fst f') /\ (forall x, In x (map fst f) <-> x = p \/ In x (map fst f'))   (* removal *)
+        /\ decide matchb pats p = Some true /\ basename p <> ""%string) ->
+    (forall q, q <> p -> content_of f' q = content_of f q) ->
+    stream (fp_cs matchb f' pats) <> stream (fp_cs matchb f pats).
+Proof.
+  exact (fun matchb f f' pats p Hc Hoth =>
+    match Hc with
+    | or_introl (conj a (conj b c)) => edit_changes_stream matchb f f' pats p a b c Hoth
+    | or_intror (or_introl (conj a (conj b (conj c d)))) => add_changes_stream matchb f f' pats p a b c d Hoth
+    | or_intror (or_intror (conj a (conj b (conj c d)))) => remove_changes_stream matchb f f' pats p a b c d Hoth
+    end).
+Qed.
+Print Assumptions C05_detects_partial.
+
+Theorem C05_checksum_acts_on_it :
+  forall (matchb : string -> path -> bool) (H : string -> string) (Hx : fpr -> string),
+    (forall a b, H a = H b -> a = b) ->
+    forall (v : variant) (dry : bool) (s : state) (t : task) (f0 : fsmap),
+      v_fp_exact v = false ->
+      lookup (cs_key t) (cks s) = Some (dg H Hx v (fp_cs matchb f0 (t_sources t))) ->
+      stream (fp_cs matchb (fs s) (t_sources t)) <> stream (fp_cs matchb f0 (t_sources t)) ->
+      fst (check_checksum matchb H Hx v dry s t) = false.
+Proof. exact checksum_detects. Qed.
+Print Assumptions C05_checksum_acts_on_it.
+
+(* method checksum: a pure modification-time change (touch, explicit mtime) leaves the fingerprint as it was ... *)
+Theorem C05_mtime_only_checksum :
+  forall (matchb : string -> path -> bool) (now : N) (f : fsmap) (pats : list glob) (o : op),
+    (exists p, o = Touch p) \/ (exists p t, o = SetMtime p t) ->
+    fp_cs matchb (file_op now f o) pats = fp_cs matchb f pats.
+Proof. exact mtime_ops_keep_checksum. Qed.
+Print Assumptions C05_mtime_only_checksum.
+
+(* ... method timestamp: a matched source newer than marker and generates makes the task out of date *)
+Theorem C05_mtime_only_timestamp :
+  forall (matchb : string -> path -> bool) (v : variant) (dry : bool) (now : N) (s : state) (t : task) (mt : N) (p : path),
+    lookup (ts_key t) (tss s) = Some mt ->
+    In p (globs matchb (fs s) (t_sources t)) ->
+    (N.max (max_mtime (fs s) (globs matchb (fs s) (t_generates t))) mt < mtime_of (fs s) p)%N ->
+    fst (check_timestamp matchb v dry now s t) = false.
+Proof. exact timestamp_detects_newer. Qed.
+Print Assumptions C05_mtime_only_timestamp.
+
+(* the writing check followed by a check on the unchanged tree: "same", so only generates/status decide *)
+Theorem C05_idempotent_partial :
+  forall (matchb : string -> path -> bool) (H : string -> string) (Hx : fpr -> string) (v : variant) (dry : bool) (s : state) (t : task),
+    let s1 := snd (check_checksum matchb H Hx v false s t) in
+    fs s1 = fs s /\ check_checksum matchb H Hx v dry s1 t = (gens_exist matchb (fs s) t, s1).
+Proof. exact checksum_check_idempotent. Qed.
+Print Assumptions C05_idempotent_partial.
+
+(* non-vacuity: the repaired variant on a history with an edit, an addition, a removal and a rename *)
+Example C05_example :
+  wf_proj p_example /\ empty_store w_init /\
+  map o_res (observe gmatch idH hx1 repaired p_example w_init h_c05_example)
+  = [ROk; RSkipped; RFile; ROk; RFile; ROk; RFile; ROk; RFile; ROk; RSkipped].
+Proof. exact c05_example. Qed.
